@@ -592,6 +592,18 @@ WRITERS = {
 def r17f(F):
 	out = []
 	F.calls
+	# the per-direction update slots are written only by the verified update path and by pruning; a (re)announced channel starts empty
+	for fld in ('one_to_two', 'two_to_one'):
+		out += P3_field_census(F, '17.f', GP + 'ChannelInfo.' + fld, [NG + 'update_channel_internal', NG + 'remove_stale_channels_and_tracking_with_time'], kinds=('w', 'wi'), floor=2,
+			note='directional updates may enter a ChannelInfo only through update_channel_internal (signature / timestamp / capacity checks); carrying them over to a replaced channel attributes them to nodes that never signed them')
+	for ctor in (NG + 'add_channel_from_partial_announcement', NG + 'update_channel_from_unsigned_announcement_intern'):
+		fu = F.func(ctor)
+		ex = Expr(fu)
+		for b, si in sites_construct(fu, 'ChannelInfo', 'ChannelInfo'):
+			e = ex.of_rvalue(fu.blocks[b]['s'][si][2])
+			names = e[4] or []
+			ok = all(n in names and e[3][names.index(n)][0] == 'agg' and e[3][names.index(n)][2] == 'None' for n in ('one_to_two', 'two_to_one'))
+			out.append(Result('17.f', ok, ('ok:' if ok else 'shape:') + 'fresh-channel-has-no-updates@' + ctor.rsplit('::', 1)[-1], '%s builds a ChannelInfo with both directions empty' % ctor.rsplit('::', 1)[-1], 1, where=F.where(ctor, fu.line_of(b))))
 	for fld, allowed in WRITERS.items():
 		key = F.field(GP + 'NetworkGraph.' + fld)
 		allowed_n = {F.fn(a) for a in allowed if F.has_fn(a)}
